@@ -28,6 +28,8 @@ RULE = ("(i) mask: the real _get_selection_idx_mask_ for ALL 0<=mu,lamb<=120 (qu
         "runs and on runs whose search set is widened from outside to several rows.  (iv) hedge: real ESSearchHedge over "
         "synthetic update_hedge histories (gamma 0..0.5, 2-4 strategies); prob vs exact model at 1e-9, choice exact.")
 TRUSTED = [
+    "translate/es.py (fail-closed AST translator of es_search.py / search_hedge.py -> gen/Src_es.v): validated on every run by evaluating the generated programs on the tie's cases (correspondence:es_source); the reading of NumPy per entry in Model/ESSrc.v's interpreters",
+    "canonical-text pins (ast.unparse of the alpha-renamed source) for the calls with their arguments, the step-size bookkeeping, the constructors and update_hedge: they pin the source, their meaning is covered by the dynamic ties only",
     "Coq 8.16.1 kernel + vm_compute (case evaluation); no native_compute",
     "hand-written model Model/ESSelect.v of es_search.py l.44-69/134-215, search_hedge.py l.58-67, bads.py l.1630-1655, tied by differential comparison (harness/comp_search.py)",
     "np.argsort modelled as a stable sort: on ties of the minimal acquisition value only z and membership are compared",
@@ -287,7 +289,53 @@ def tie(ctx, broken):
 
 
 def search(ctx, broken):
-    """Something is broken and the monitors above found no concrete input: look further afield."""
+    """Something is broken and the monitors above found no concrete input: look further afield.  First cases AIMED at the construct
+    the translator could not read / reads differently (translate.es.aim(); the reference only orders the search), judged by the
+    declarative monitors alone; then the broad panel."""
+    try:
+        from translate import es as TE
+        regions = TE.aim()
+    except Exception:
+        regions = []
+    ctx.coverage["aimed_search"] = dict(regions=regions)
+    if any(r in regions for r in ("loop", "return", "init", "?")):
+        n = 600 if ctx.quick else 3000
+        kinds = {}
+        for j in range(n):
+            seed = ctx.seed * 100003 + j
+            c = S.es_direct(seed)
+            kind, msg, key = S.es_monitor(c)
+            kinds[kind] = kinds.get(kind, 0) + 1
+            if kind == "bad" and key:
+                ctx.violate(key, f"ESSearchELL.__call__ on a synthetic state (lamb={c['lamb']}, n_search_iter={c['iters']}, survivors per generation "
+                                 f"{[g[1].shape[0] for g in c['gens']]}): {msg}", dict(kind="es-direct", seed=seed))
+                ctx.coverage["aimed_search"]["es_direct"] = kinds
+                return True
+        ctx.coverage["aimed_search"]["es_direct"] = kinds
+    if "mask" in regions or "?" in regions:
+        try:
+            cases, recs, problems = S.mask_sweep(180 if ctx.quick else 400)
+        except Exception as ex:
+            problems = []
+            ctx.notes.append("aimed mask sweep crashed: " + repr(ex)[:200])
+        for mu, lamb, msg, w0, real in problems[:1]:
+            key = "mask-premise" if msg.startswith("w0") or msg.startswith("sum") else "mask-invalid"
+            ctx.violate(key, f"_get_selection_idx_mask_({mu}, {lamb}): {msg}", dict(kind="mask", mu=mu, lamb=lamb))
+            return True
+    if "hedge" in regions or "update" in regions or "?" in regions:
+        for gamma, n in HEDGE_CFGS + [(0.3, 3), (0.0, 3), (0.1, 4)]:
+            try:
+                recs = S.hedge_drive(ctx.rng, 400, gamma, n)
+            except Exception as ex:
+                ctx.violate("hedge-choice", f"ESSearchHedge with a portfolio of {n} strategies (gamma={gamma}) raised {type(ex).__name__}: {str(ex)[:160]} "
+                                            "instead of drawing a strategy and letting it propose", dict(kind="hedge-crash", gamma=gamma, n=n))
+                return True
+            for r in recs:
+                msg = S.hedge_monitor(r)
+                if msg:
+                    ctx.violate("hedge-choice" if "chosen" in msg else "hedge-distribution", msg,
+                                dict(kind="hedge", rec={k: r[k] for k in ("g", "gamma", "beta", "seed", "n", "D")}))
+                    return True
     for extra in range(1, 3):
         for cfg in S.panel(True, ctx.seed + 17 * extra) + [S.extra_band_cfg(ctx.seed + 17 * extra, j) for j in range(6)]:
             out = S.run_bads(cfg)
@@ -346,6 +394,13 @@ def replay(ctx, rp):
         print(f"replay: hedge g={fresh['g']} gamma={fresh['gamma']} -> prob={fresh['prob']} chosen={fresh['chosen']}")
         print("replay:", msg or "property holds on this input now")
         return 1 if msg else 0
+    if kind == "es-direct":
+        c = S.es_direct(r["seed"])
+        kd, msg, key = S.es_monitor(c)
+        print(f"replay: ESSearchELL.__call__ synthetic state seed={r['seed']} lamb={c['lamb']} generations {[g[1].shape[0] for g in c['gens']]} "
+              f"returned {c['ret'] if (c['ret'] is None or isinstance(c['ret'], str)) else [c['ret'][0].tolist(), c['ret'][1]]} exc={c['exc']}")
+        print("replay:", f"{key}: {msg}" if kd == "bad" else "property holds on this input now")
+        return 1 if kd == "bad" else 0
     if kind == "hedge-crash":
         import random
         try:
